@@ -751,11 +751,22 @@ def e_msg_nameplates(eng, it, objs):
     deliver(it, objs, "nameplates", nameplates=VSeq(l, "json"))
 
 
+def _wrong_password_verdict(it, objs, was_scared):
+    """C01 'each side that hears from the other closes with WrongPasswordError': a peer message that fails to decrypt
+    (or a bad PAKE message) while the wormhole is open starts the close with that verdict"""
+    it.ctx.prove(z3.Implies(z3.And(z3.Not(was_scared), T_(it, objs, "scared_seen")),
+                            z3.And(z3.Not(_boss_open(it, objs)), G(objs, "result_kind").z == RESULT_KINDS.index("scary"))),
+                 "post:C01:undecryptable-peer-message-ends-with-WrongPasswordError",
+                 {"kind": "post", "src": "a peer message that does not decrypt makes WrongPasswordError the verdict"})
+
+
 def e_msg_message(eng, it, objs):
     # any side / phase / body: our own echoes, the peer, a third participant, duplicates, any order
     it.ctx.assume(T_(it, objs, "open_sent"))
+    was_scared = T_(it, objs, "scared_seen")
     deliver(it, objs, "message", side=inp(it, "side", "str"), phase=inp(it, "phase", "str"),
             body=inp(it, "body", "str"))
+    _wrong_password_verdict(it, objs, was_scared)
 
 
 def e_order_deliver_queued(eng, it, objs):
@@ -773,8 +784,10 @@ def e_order_deliver_queued(eng, it, objs):
     qd.z = z3.Store(qd.z, phase.z, True)
     setg(objs, "order_drain_pending", VBool(z3.Bool(it.ctx.namer("more_queued"))))
     it.reg._in_queue_delivery = True
+    was_scared = T_(it, objs, "scared_seen")
     try:
         call(it, objs["O"], "_deliver", side, phase, body)
+        _wrong_password_verdict(it, objs, was_scared)
     except PyRaise as e:
         call(it, objs["B"], "error", e.exc)
         raise
